@@ -382,7 +382,9 @@ R_DbGrid(L, md, s0) ==
      THEN \* repaired: dimension > 0, grid accepted by Grid::resetFromVector (no negative count or mesh), result of the Db
           \* part used, number of samples of the file = number of nodes of the grid
           LET s5  == IF s3.ok /\ (nd <= 0 \/ (\E d \in DOMAIN s3.o.nx : s3.o.nx[d] < 0) \/ (\E d \in DOMAIN s3.o.dx : s3.o.dx[d] \in NegToks))
-                     THEN Fail(s3, "badCount") ELSE s3
+                     THEN Fail(s3, "badCount")
+                     \* (an absurd number of nodes is still used: product of the counts, size of the table)
+                     ELSE IF s3.ok /\ (\E d \in DOMAIN s3.o.nx : s3.o.nx[d] > 40000) THEN Ev(s3, "allocHuge") ELSE s3
               db2 == R_DbPart(L, md, s5)
           IN IF db2.ok /\ db2.o.nech = ntot THEN Res(db2, grid(db2) @@ DbOf(db2))
              ELSE ResFail(IF db2.ok THEN FailAt(db2, "badCount", "nech") ELSE db2)
@@ -682,7 +684,7 @@ R_Vario(L, md, s0) ==
       nvar == s5.o.nvar
       fc   == s5.o.fc
       sa == IF md = "ideal" /\ (ndim < 1 \/ ndim > 3 \/ nvar < 1 \/ s5.o.ndir < 0) THEN Fail(s5, "badCount")
-            ELSE ChkRep(md, s5, ndim >= 1 /\ nvar >= 0 /\ s5.o.ndir >= 0)
+            ELSE ChkRep(md, s5, ndim >= 0 /\ nvar >= 0 /\ s5.o.ndir >= 0 /\ (ndim > 0 \/ s5.o.ndir = 0))
       sb == Alloc(L, md, sa, nvar)                                     \* _variableNames.resize(nvar)
       s6 == IF fc = 2 THEN RdMany(L, md, Put(sb, "names", <<>>), "names", "s", IF sb.ok THEN nvar ELSE 0)
             ELSE Put(sb, "names", Cst(IF sb.ok /\ nvar > 0 /\ nvar < 1000 THEN nvar ELSE 0, "Unknown"))
@@ -1137,7 +1139,8 @@ R_CSV(L, md) ==
       ragged == \E k \in DOMAIN lines : Len(lines[k]) # ncol
       tab   == Flat([k \in DOMAIN lines |-> [j \in DOMAIN cells(lines[k]) |-> CsvVal(cells(lines[k])[j])]])
       \* Db::resetFromCSV: ncol = tab.size() / nrow, whatever the header says
-      ncol2 == IF tab = <<>> \/ nrow = 0 THEN 0 ELSE Len(tab) \div nrow
+      \* (repaired: without any data line the columns are those of the header)
+      ncol2 == IF tab = <<>> \/ nrow = 0 THEN (IF Repaired THEN ncol ELSE 0) ELSE Len(tab) \div nrow
   IN IF md = "ideal"
      THEN IF ncol >= 1 /\ ~ragged THEN [ok |-> TRUE, ev |-> {}, at |-> "", o |-> [names |-> names, rows |-> Recut(tab, ncol)]]
           ELSE [ok |-> FALSE, ev |-> {"raggedLine"}, at |-> "rows", o |-> <<>>]
